@@ -169,7 +169,8 @@ def cut_scope_grammar(rng):
         return ('tok', t)
     n = rng.randint(2, 3)
     inner = ('choice', [option(i == n - 1) for i in range(n)])
-    wrap = rng.choice(['group', 'group', 'opt', 'rep', 'named', 'skipgroup', 'posrep', 'posjoin', 'plain-group', 'named-plain-group'])
+    wrap = rng.choice(['group', 'group', 'opt', 'rep', 'named', 'skipgroup', 'posrep', 'posjoin', 'plain-group', 'named-plain-group',
+                       'look-cut', 'neglook-cut', 'skipto-cut', 'cut-then-nested'])
     t1, t2 = rng.choice(toks), rng.choice(toks)
     cutseq = rng.choice([('seq', [('tok', t1), 'cut', ('tok', t2)]), ('seq', [('tok', t1), 'cut']), ('seq', [('group', ('seq', [('tok', t1), 'cut'])), ('tok', t2)])])
     inner_e = {'group': ('group', inner), 'opt': ('opt', inner), 'rep': ('rep', False, None, False, inner),
@@ -177,7 +178,14 @@ def cut_scope_grammar(rng):
                # a repetition that must match at least once, with the cut in its body: the cut must not outlive the repetition
                'posrep': ('rep', True, None, False, cutseq), 'posjoin': ('rep', True, ('tok', ','), False, cutseq),
                # a group without alternatives is transparent to cuts: the cut commits the enclosing option
-               'plain-group': ('group', cutseq), 'named-plain-group': ('named', False, 'n', ('group', cutseq))}[wrap]
+               'plain-group': ('group', cutseq), 'named-plain-group': ('named', False, 'n', ('group', cutseq)),
+               # a cut inside a lookahead stays inside it; a cut inside a skip-to expression commits the enclosing option like any element
+               'look-cut': ('seq', [('look', False, ('group', ('seq', [('tok', t1), 'cut']))), ('tok', t1)]),
+               'neglook-cut': ('seq', [('look', True, ('group', ('seq', [('tok', t2), 'cut', ('tok', 'y')]))), ('tok', t1)]),
+               'skipto-cut': ('skipto', ('group', cutseq)),
+               # a cut, then a nested construct that succeeds, then a failure: the commit must survive the nested scope
+               'cut-then-nested': ('seq', [('tok', t1), 'cut', rng.choice([('opt', ('tok', t2)), ('rep', False, None, False, ('tok', t2)),
+                                                                           ('group', ('choice', [('tok', t2), ('tok', 'y')]))])])}[wrap]
     alt1 = ('seq', [inner_e, ('tok', 'x'), 'eof'])
     alts = [alt1]
     for _ in range(rng.randint(1, 2)):
